@@ -173,6 +173,7 @@ func c18mutants(g c18cfg) []c18mut {
 			if i > 0 {
 				m := g.clone()
 				m.Pipelines[p][i].Name = m.Pipelines[p][0].Name
+				m.Pipelines[p][i].Unnamed = false
 				m.Pipelines[p][i].Deps = nil
 				ms = append(ms, c18mut{"duplicate-stage", m, fmt.Sprintf("%s[%d].name=%s", p, i, m.Pipelines[p][0].Name)})
 			}
@@ -270,6 +271,8 @@ func c18(c *h.Ctx) {
 		y := j.cfg.yaml()
 		f := dir + "/cfg.yaml"
 		h.WriteFile(f, y)
+		// `validate` runs without -c: keep the default-config discovery from walking up into foreign directories
+		h.WriteFile(dir+"/taskctl.yaml", "{}\n")
 		c.Nontrivial(y)
 		cas := map[string]interface{}{"kind": j.kind, "broken_reference": j.desc, "yaml": y}
 		res := tc{Dir: dir, Timeout: 15 * time.Second}.run(c, "-c", f, "list")
